@@ -20,7 +20,10 @@ SeqRequests ==
         f \in {"cP", "cU", "pQ"}, t \in {"cU", "pR", "pN"}, u \in {NA, "false"}} \cup
     {[S EXCEPT !.route = "add", !.body = "mp", !.pin = p, !.name = n, !.onlyhash = oh] :
         p \in {NA, "false"}, n \in {NA, "n1"}, oh \in {NA, "true"}} \cup
-    {[S EXCEPT !.route = "repo/gc"], [S EXCEPT !.method = "OPTIONS", !.route = "pin/rm", !.style = "query", !.arg = "cP"],
+    {[S EXCEPT !.route = "pin/add", !.style = "slash", !.arg = "cU", !.enc = "both"],
+     [S EXCEPT !.route = "pin/rm", !.style = "query", !.arg = "cP", !.enc = "slash"],
+     [S EXCEPT !.route = "pin/update", !.style = "query", !.arg = "cP", !.arg2 = "pR", !.enc = "letter"],
+     [S EXCEPT !.route = "repo/gc"], [S EXCEPT !.method = "OPTIONS", !.route = "pin/rm", !.style = "query", !.arg = "cP"],
      [S EXCEPT !.method = "GET", !.pathk = "nm-suffix", !.qk = "arglike", !.bk = "none"]}
 
 Init == \E w \in Worlds : init = w /\ ps = World(w) /\ last = S
